@@ -172,15 +172,15 @@ class Prog:
             return " ".join("-" if a is None else str(a) for a in st)
         return f"prog {pid} {self.flags[0]} {self.flags[1]} | " + " ; ".join(f(s) for s in self.stmts)
     def text(self, header=""):
-        return RUST_HEAD.format(alloc=ALLOC_NAMES[self.flags], header=header) + "\n".join(self.rust) + "\n}\n"
+        return RUST_HEAD.format(header=header) + f"fn main() {{\n    type A = {ALLOC_NAMES[self.flags]};\n" + "\n".join(self.rust) + "\n}\n"
+    def function(self, name):
+        return f"fn {name}() {{\n    type A = {ALLOC_NAMES[self.flags]};\n" + "\n".join(self.rust) + "\n}\n"
 
 RUST_HEAD = """{header}#![forbid(unsafe_code)]
 #![allow(unused, unused_must_use)]
 use life_cases::*;
 use bump_scope::{{Bump, BumpScope, BumpPool, BumpVec, BumpString, MutBumpVec, MutBumpVecRev, MutBumpString, settings::BumpSettings}};
 use bump_scope::traits::{{BumpAllocator, BumpAllocatorScope, BumpAllocatorTypedScope, MutBumpAllocatorTypedScope}};
-type A = {alloc};
-fn main() {{
 """
 
 # ------------------------------------------------------------------------------------------------
@@ -201,85 +201,87 @@ def producers_of(table, owner):
             if base in ARGS: res.append((n, s.recv))
     return res
 
-# a context sets up a handle `h` on which producers are called; `enders` are (name, fn(prog)) that end the memory
-# epoch of what `h` allocates (must-not-compile when a value is used afterwards), `keepers` are events that look
-# similar but legitimately keep the value alive (must compile)
+# a context sets up a handle `h` on which producers are called.  `enders` are events that end the memory epoch of what
+# `h` allocates (must-not-compile when a value is used afterwards), `keepers` are events that look similar but legitimately
+# keep the value alive (must compile).  An event is (name, run, pre, consumed): `run()` performs it and returns the new
+# variables with drop glue it created; `pre` are the variables a CONTROL program has to drop before the event (the event would
+# invalidate them and their implicit drop at the end of `main` would then be an error of its own); `consumed` are the
+# variables the event itself moves or drops.  `objs` are the context's variables with drop glue, in declaration order.
+
+def ev(name, run, pre=(), consumed=()):
+    def wrapped():
+        r = run()
+        return list(r) if isinstance(r, (list, tuple)) else []
+    return dict(name=name, run=wrapped, pre=list(pre), consumed=list(consumed))
 
 def ctx_bump(P):
     b = P.new_bump()
-    def reset(): P.call(b, "Bump", "reset")
-    def reset_to_start(): P.call(b, "Bump", "reset_to_start")
-    def drop_bump(): P.drop(b)
     def reborrow_reset():
         bm = P.call(b, "Bump", "borrow_mut_with_settings", ann="&mut Bump<A>"); P.call(bm, "Bump", "reset")
-    def new_guard(): P.call(b, "Bump", "scope_guard")
-    def convert(): P.call(b, "Bump", "with_settings", ann="Bump<A>")
-    return dict(h=b, owner="Bump", mut=True, enders=[("reset", reset), ("reset_to_start", reset_to_start), ("drop-bump", drop_bump),
-                ("reborrow-mut+reset", reborrow_reset), ("scope_guard", new_guard), ("with_settings(self)", convert)],
-                keepers=[("stats", lambda: P.use(P.call(b, "Bump", "stats"))), ("as_scope", lambda: P.call(b, "Bump", "as_scope"))],
-                cleanup=[b])
+    return dict(h=b, owner="Bump", mut=True, objs=[b], enders=[
+        ev("reset", lambda: P.call(b, "Bump", "reset")), ev("reset_to_start", lambda: P.call(b, "Bump", "reset_to_start")),
+        ev("drop-bump", lambda: P.drop(b), consumed=[b]), ev("reborrow-mut+reset", reborrow_reset),
+        ev("scope_guard", lambda: [P.call(b, "Bump", "scope_guard")]),
+        ev("with_settings(self)", lambda: [P.call(b, "Bump", "with_settings", ann="Bump<A>")], consumed=[b])],
+        keepers=[ev("stats", lambda: P.use(P.call(b, "Bump", "stats"))), ev("as_scope", lambda: P.call(b, "Bump", "as_scope"))])
 
 def ctx_guard(P, via="scope"):
     b = P.new_bump()
     g = P.call(b, "Bump", "scope_guard")
     s = P.call(g, "BumpScopeGuard", "scope")
-    h, extra = s, []
+    h = s
     if via == "by_value":
         h = P.call(s, "BumpScope", "by_value")
     elif via == "borrow":
         h = P.call(s, "BumpScope", "borrow_with_settings", ann="&BumpScope<A>")
     elif via == "borrow_mut":
         h = P.call(s, "BumpScope", "borrow_mut_with_settings", ann="&mut BumpScope<A>")
-    def drop_guard(): P.drop(g)
-    def reset_guard(): P.call(g, "BumpScopeGuard", "reset")
-    def second_scope(): P.call(g, "BumpScopeGuard", "scope")
-    def reset(): P.call(b, "Bump", "reset")
-    def drop_bump(): P.drop(b)
     keepers = []
     if via == "scope":
-        keepers = [("inner-scope_guard", lambda: P.drop(P.call(s, "BumpScope", "scope_guard"))),
-                   ("inner-scoped", lambda: (P.enter(s, "BumpScope", "scoped"), P.exit(None)))]
-    return dict(h=h, owner="BumpScope", mut=(via != "borrow"),
-                enders=[("guard-drop", drop_guard), ("guard-reset", reset_guard), ("second-scope()", second_scope), ("reset", reset),
-                        ("drop-bump", drop_bump)], keepers=keepers, cleanup=[g, b])
+        keepers = [ev("inner-scope_guard", lambda: P.drop(P.call(s, "BumpScope", "scope_guard"))),
+                   ev("inner-scoped", lambda: (P.enter(s, "BumpScope", "scoped"), P.exit(None)) and None)]
+    return dict(h=h, owner="BumpScope", mut=(via != "borrow"), objs=[b, g], enders=[
+        ev("guard-drop", lambda: P.drop(g), consumed=[g]), ev("guard-reset", lambda: P.call(g, "BumpScopeGuard", "reset")),
+        ev("second-scope()", lambda: P.call(g, "BumpScopeGuard", "scope")), ev("reset", lambda: P.call(b, "Bump", "reset"), pre=[g]),
+        ev("drop-bump", lambda: P.drop(b), pre=[g], consumed=[b])], keepers=keepers)
 
 def ctx_view(P, name):
     b = P.new_bump()
     h = P.call(b, "Bump", name)
-    def reset(): P.call(b, "Bump", "reset")
-    def drop_bump(): P.drop(b)
-    def as_mut(): P.call(b, "Bump", "as_mut_scope")
-    return dict(h=h, owner="BumpScope", mut=(name == "as_mut_scope"),
-                enders=[("reset", reset), ("drop-bump", drop_bump), ("as_mut_scope", as_mut)], keepers=[], cleanup=[b])
+    return dict(h=h, owner="BumpScope", mut=(name == "as_mut_scope"), objs=[b], enders=[
+        ev("reset", lambda: P.call(b, "Bump", "reset")), ev("drop-bump", lambda: P.drop(b), consumed=[b]),
+        ev("as_mut_scope", lambda: P.call(b, "Bump", "as_mut_scope"))], keepers=[])
 
 def ctx_claim(P, inner=False):
     b = P.new_bump()
-    cleanup = [b]
+    # dropping the claim guard ends nothing: the memory lives as long as the claimed scope does
     if inner:
         g = P.call(b, "Bump", "scope_guard"); s = P.call(g, "BumpScopeGuard", "scope")
-        cg = P.call(s, "BumpScope", "claim"); cleanup = [g, b]
-        enders = [("guard-drop", lambda: P.drop(g)), ("guard-reset", lambda: P.call(g, "BumpScopeGuard", "reset"))]
-    else:
-        cg = P.call(b, "Bump", "claim")
-        enders = [("reset", lambda: P.call(b, "Bump", "reset")), ("drop-bump", lambda: P.drop(b))]
-    # dropping the claim guard ends nothing: the memory lives as long as the claimed scope does
-    return dict(h=cg, owner="BumpScope", mut=True, enders=[("claim-drop+" + n, (lambda f=f: (P.drop(cg), f()))) for n, f in enders],
-                keepers=[("claim-drop", lambda: P.drop(cg))], cleanup=cleanup, owned_handle=cg)
+        cg = P.call(s, "BumpScope", "claim")
+        return dict(h=cg, owner="BumpScope", mut=True, objs=[b, g, cg], owned_handle=cg, enders=[
+            ev("claim-drop+guard-drop", lambda: (P.drop(cg), P.drop(g)) and None, consumed=[cg, g]),
+            ev("claim-drop+guard-reset", lambda: (P.drop(cg), P.call(g, "BumpScopeGuard", "reset")) and None, consumed=[cg])],
+            keepers=[ev("claim-drop", lambda: P.drop(cg), consumed=[cg])])
+    cg = P.call(b, "Bump", "claim")
+    return dict(h=cg, owner="BumpScope", mut=True, objs=[b, cg], owned_handle=cg, enders=[
+        ev("claim-drop+reset", lambda: (P.drop(cg), P.call(b, "Bump", "reset")) and None, consumed=[cg]),
+        ev("claim-drop+drop-bump", lambda: (P.drop(cg), P.drop(b)) and None, consumed=[cg, b])],
+        keepers=[ev("claim-drop", lambda: P.drop(cg), consumed=[cg])])
 
 def ctx_pool(P):
     p = P.new_pool()
     pg = P.call(p, "BumpPool", "get")
-    return dict(h=pg, owner="BumpScope", mut=True,
-                enders=[("guard-drop+pool-reset", lambda: (P.drop(pg), P.call(p, "BumpPool", "reset"))),
-                        ("guard-drop+pool-reset_to_start", lambda: (P.drop(pg), P.call(p, "BumpPool", "reset_to_start"))),
-                        ("guard-drop+pool-drop", lambda: (P.drop(pg), P.drop(p)))],
-                keepers=[("pool-guard-drop", lambda: P.drop(pg))], cleanup=[p], owned_handle=pg)
+    return dict(h=pg, owner="BumpScope", mut=True, objs=[p, pg], owned_handle=pg, enders=[
+        ev("guard-drop+pool-reset", lambda: (P.drop(pg), P.call(p, "BumpPool", "reset")) and None, consumed=[pg]),
+        ev("guard-drop+pool-reset_to_start", lambda: (P.drop(pg), P.call(p, "BumpPool", "reset_to_start")) and None, consumed=[pg]),
+        ev("guard-drop+pool-drop", lambda: (P.drop(pg), P.drop(p)) and None, consumed=[pg, p])],
+        keepers=[ev("pool-guard-drop", lambda: P.drop(pg), consumed=[pg])])
 
 def ctx_trait_ref(P):
     b = P.new_bump()
     r = P.call(b, "Bump", "borrow_with_settings", ann="&Bump<A>")
-    return dict(h=r, owner="BumpAllocatorTypedScope", mut=False,
-                enders=[("reset", lambda: P.call(b, "Bump", "reset")), ("drop-bump", lambda: P.drop(b))], keepers=[], cleanup=[b])
+    return dict(h=r, owner="BumpAllocatorTypedScope", mut=False, objs=[b], enders=[
+        ev("reset", lambda: P.call(b, "Bump", "reset")), ev("drop-bump", lambda: P.drop(b), consumed=[b])], keepers=[])
 
 LINEAR_CONTEXTS = [
     ("bump", ctx_bump), ("guard", ctx_guard), ("guard.by_value", lambda P: ctx_guard(P, "by_value")),
@@ -288,12 +290,27 @@ LINEAR_CONTEXTS = [
     ("claim", ctx_claim), ("guard.claim", lambda P: ctx_claim(P, True)), ("pool", ctx_pool), ("&Bump(trait)", ctx_trait_ref),
 ]
 
+def escape_and_control(table, mk, i, produce, which="enders"):
+    """(escape program, control program) for event number i of a context; `produce(P, c)` makes the value"""
+    P = Prog(table); c = mk(P); x = produce(P, c); e = c[which][i]; e["run"](); P.use(x)
+    Q = Prog(table); c = mk(Q); x = produce(Q, c); e = c[which][i]; Q.use(x); Q.drop(x)
+    for v in reversed(c["objs"]):
+        if v in e["pre"]: Q.drop(v)
+    new = e["run"]()
+    rest = [v for v in c["objs"] if v not in e["pre"] and v not in e["consumed"]] + new
+    for v in reversed(rest): Q.drop(v)
+    return e["name"], P, Q
+
+def keeper(table, mk, i, produce):
+    Q = Prog(table); c = mk(Q); x = produce(Q, c); e = c["keepers"][i]; new = e["run"](); Q.use(x); Q.drop(x)
+    rest = [v for v in c["objs"] if v not in e["consumed"]] + new
+    for v in reversed(rest): Q.drop(v)
+    return e["name"], Q
+
 def gen_linear(table, cases):
     for cname, mk in LINEAR_CONTEXTS:
         probe = mk(Prog(table))
         prods = producers_of(table, probe["owner"])
-        if cname == "&Bump(trait)":
-            prods = producers_of(table, "BumpAllocatorTypedScope")
         n_end, n_keep = len(probe["enders"]), len(probe["keepers"])
         for (m, recv) in prods:
             if recv == "refMut" and not probe["mut"]:
@@ -301,20 +318,14 @@ def gen_linear(table, cases):
                 P = Prog(table); c = mk(P); x = P.call(c["h"], c["owner"], m); P.use(x)
                 cases.append(Case(f"{cname}/{m}/shared-receiver", "reject", P, route="mut-through-shared", producer=m, context=cname))
                 continue
+            produce = lambda P, c, m=m: P.call(c["h"], c["owner"], m)
             for i in range(n_end):
-                # escape: the value is used after the event
-                P = Prog(table); c = mk(P); x = P.call(c["h"], c["owner"], m)
-                name, ev = c["enders"][i]; ev(); P.use(x)
+                name, P, Q = escape_and_control(table, mk, i, produce)
                 cases.append(Case(f"{cname}/{m}/{name}/escape", "reject", P, route=name, producer=m, context=cname))
-                # control: the last use (and the drop) come before the event
-                P = Prog(table); c = mk(P); x = P.call(c["h"], c["owner"], m); P.use(x); P.drop(x)
-                name, ev = c["enders"][i]; ev()
-                cases.append(Case(f"{cname}/{m}/{name}/control", "accept", P, route=name, producer=m, context=cname))
+                cases.append(Case(f"{cname}/{m}/{name}/control", "accept", Q, route=name, producer=m, context=cname))
             for i in range(n_keep):
-                P = Prog(table); c = mk(P); x = P.call(c["h"], c["owner"], m)
-                name, ev = c["keepers"][i]; ev(); P.use(x); P.drop(x)
-                for v in c["cleanup"]: P.drop(v)
-                cases.append(Case(f"{cname}/{m}/{name}/keeps", "accept", P, route=name, producer=m, context=cname))
+                name, Q = keeper(table, mk, i, produce)
+                cases.append(Case(f"{cname}/{m}/{name}/keeps", "accept", Q, route=name, producer=m, context=cname))
 
 CLOSURE_CONTEXTS = [("Bump", "scoped"), ("Bump", "scoped_aligned"), ("Bump", "aligned"), ("BumpScope", "scoped"), ("BumpScope", "scoped_aligned")]
 
@@ -368,15 +379,13 @@ def gen_collections(table, cases):
     for ty, mode in colls:
         for (o, n), s in sorted(table.items()):
             if o != ty: continue
+            produce = lambda P, c, ty=ty, mode=mode, n=n: P.call(P.coll(c["h"], mode, ty), ty, n)
             for cname, mk in (("bump", ctx_bump), ("guard", ctx_guard)):
                 probe = mk(Prog(table))
                 for i in range(len(probe["enders"])):
-                    P = Prog(table); c = mk(P); v = P.coll(c["h"], mode, ty); x = P.call(v, ty, n)
-                    name, ev = c["enders"][i]; ev(); P.use(x)
+                    name, P, Q = escape_and_control(table, mk, i, produce)
                     cases.append(Case(f"{ty}.{n}@{cname}/{name}/escape", "reject", P, route=name, producer=f"{ty}::{n}", context=cname + "+collection"))
-                    P = Prog(table); c = mk(P); v = P.coll(c["h"], mode, ty); x = P.call(v, ty, n); P.use(x); P.drop(x)
-                    name, ev = c["enders"][i]; ev()
-                    cases.append(Case(f"{ty}.{n}@{cname}/{name}/control", "accept", P, route=name, producer=f"{ty}::{n}", context=cname + "+collection"))
+                    cases.append(Case(f"{ty}.{n}@{cname}/{name}/control", "accept", Q, route=name, producer=f"{ty}::{n}", context=cname + "+collection"))
             # out of a scoped closure
             P = Prog(table); b = P.new_bump(); s = P.enter(b, "Bump", "scoped"); v = P.coll(s, mode, ty); y = P.call(v, ty, n); x = P.exit(y); P.use(x)
             cases.append(Case(f"{ty}.{n}@scoped/return/escape", "reject", P, route="return-from-closure", producer=f"{ty}::{n}", context="Bump::scoped+collection"))
@@ -409,8 +418,8 @@ def gen_handles(table, cases):
             sv = P.call(c["owned_handle"], owner, d); P.drop(c["owned_handle"]); P.use(P.call(sv, "BumpScope", "alloc"))
             add(f"{ctxn}-{d}-after-guard-drop", "reject", P, ctxn + "-guard-drop")
             P = Prog(table); c = mk(P)
-            sv = P.call(c["owned_handle"], owner, d); x = P.call(sv, "BumpScope", "alloc"); P.use(x); P.drop(x); P.drop(c["owned_handle"])
-            for v in c["cleanup"]: P.drop(v)
+            sv = P.call(c["owned_handle"], owner, d); x = P.call(sv, "BumpScope", "alloc"); P.use(x); P.drop(x)
+            for v in reversed(c["objs"]): P.drop(v)
             add(f"{ctxn}-{d}-control", "accept", P, ctxn + "-guard-drop")
     # guards of guards
     P = Prog(table); b = P.new_bump(); g = P.call(b, "Bump", "scope_guard"); s = P.call(g, "BumpScopeGuard", "scope")
@@ -489,9 +498,9 @@ def settings_ty(s):
     up, ma, ga, cl = s
     return f"BumpSettings<{ma}, {str(bool(up)).lower()}, {str(bool(ga)).lower()}, {str(bool(cl)).lower()}>"
 
-def conv_program(owner, meth, old, new):
+def conv_body(owner, meth, old, new):
     S0, S1 = settings_ty(old), settings_ty(new)
-    body = []
+    body = ["    type A = Global;"]
     if owner == "Bump":
         body.append(f"    let mut b: Bump<A, {S0}> = Bump::new();")
         if meth == "with_settings": body.append(f"    let c: Bump<A, {S1}> = b.with_settings(); touch(&c);")
@@ -504,7 +513,10 @@ def conv_program(owner, meth, old, new):
         elif meth == "borrow_with_settings": body.append(f"        let r: &BumpScope<A, {S1}> = s.borrow_with_settings(); touch(&r);")
         else: body.append(f"        let r: &mut BumpScope<A, {S1}> = s.borrow_mut_with_settings(); touch(&r);")
         body.append("    });")
-    return RUST_HEAD.format(alloc="Global", header="") + "\n".join(body) + "\n}\n"
+    return "\n".join(body)
+
+def conv_program(owner, meth, old, new, header=""):
+    return RUST_HEAD.format(header=header) + "fn main() {\n" + conv_body(owner, meth, old, new) + "\n}\n"
 
 def weakening(owner, meth, old, new):
     """does the conversion weaken a guarantee in the sense of the property text?"""
@@ -619,8 +631,8 @@ def rustc_one(args):
     cmd = ["rustc", "--edition", "2024", "--crate-type", "bin", f"--emit={emit}", "-C", "debuginfo=0", "--error-format=json",
            "--extern", f"bump_scope={libs['bump_scope']}", "--extern", f"life_cases={libs['life_cases']}",
            "-L", f"dependency={deps}", "-o", out, path]
-    p = subprocess.run(cmd, capture_output=True, text=True, timeout=600)
-    codes, first = [], ""
+    p = subprocess.run(cmd, capture_output=True, text=True, timeout=900)
+    errs = []       # (code, primary line in `path` or None, rendered)
     for l in p.stderr.splitlines():
         try: d = json.loads(l)
         except ValueError: continue
@@ -629,27 +641,87 @@ def rustc_one(args):
         msg = d.get("message", "")
         if msg.startswith("aborting due to"): continue
         if code is None and "lifetime may not live long enough" in msg: code = "lifetime"
-        codes.append(code or "no-code:" + msg[:60])
-        if not first: first = (d.get("rendered") or msg)[:900]
-    return p.returncode, codes, first
+        line = None
+        for sp in d.get("spans", []):
+            if sp.get("is_primary") and os.path.basename(sp.get("file_name", "")) == os.path.basename(path):
+                line = sp.get("line_start"); break
+        errs.append((code or "no-code:" + msg[:60], line, (d.get("rendered") or msg)[:900]))
+    return p.returncode, errs
+
+BATCH = 24
 
 def compile_all(ctx, cases, d, libs):
+    """rustc verdict for every case.  Cases the checker accepts, and cases it rejects for a borrow/lifetime reason, are compiled
+    in batches (one function per case in one file; every borrow-check error is attributed to its function by line); whatever
+    cannot be attributed that way, and everything else, is compiled on its own."""
     gen = os.path.join(d, "gen"); outd = os.path.join(d, "target", "cases")
     shutil.rmtree(gen, ignore_errors=True); os.makedirs(gen); os.makedirs(outd, exist_ok=True)
     deps = os.path.dirname(libs["bump_scope"])
-    jobs = []
     for i, c in enumerate(cases):
-        c.file = os.path.join(gen, f"c{i:05d}.rs")
         header = f"// {c.id}   expected: {c.expected or 'as the const assertions decide'}\n"
-        c.text = c.prog.text(header) if c.prog else header + conv_program(*c.conv)
-        open(c.file, "w").write(c.text)
-        jobs.append((c.file, os.path.join(outd, f"c{i:05d}" + (".o" if c.emit == "obj" else ".rmeta")), c.emit, libs, deps))
+        c.text = c.prog.text(header) if c.prog else conv_program(*c.conv, header=header)
+        c.rustc, c.codes, c.first_error, c.idx = None, [], "", i
+    groups = collections.defaultdict(list)
+    single = []
+    for c in cases:
+        cls = c.model_detail.split()[0] if (c.model == "reject" and c.model_detail) else ""
+        if c.prog and c.model == "accept": groups["acc"].append(c)
+        elif c.prog and cls in ("dead", "escape", "access"): groups["bck"].append(c)
+        elif c.conv and c.model == "accept": groups["convacc"].append(c)
+        else: single.append(c)
+    batches = []
+    for key, cs in groups.items():
+        for k in range(0, len(cs), BATCH):
+            batches.append((key, cs[k:k + BATCH]))
+    def job_single(c):
+        path = os.path.join(gen, f"c{c.idx:05d}.rs"); open(path, "w").write(c.text); c.file = path
+        return (path, os.path.join(outd, f"c{c.idx:05d}" + (".o" if c.emit == "obj" else ".rmeta")), c.emit, libs, deps)
+    def job_batch(n, key, cs):
+        path = os.path.join(gen, f"batch{n:04d}_{key}.rs")
+        text = RUST_HEAD.format(header=f"// batch of {len(cs)} cases ({key})\n"); ranges = []
+        line = text.count("\n") + 1
+        for c in cs:
+            f = (c.prog.function(f"case_{c.idx}") if c.prog else f"fn case_{c.idx}() {{\n" + conv_body(*c.conv) + "\n}\n")
+            f = f"// {c.id}\n" + f
+            n_lines = f.count("\n")
+            ranges.append((line, line + n_lines - 1, c)); line += n_lines
+            text += f
+        text += "fn main() {\n" + "".join(f"    case_{c.idx}();\n" for c in cs) + "}\n"
+        open(path, "w").write(text)
+        emit = "obj" if key == "convacc" else "metadata"
+        return (path, os.path.join(outd, f"batch{n:04d}" + (".o" if emit == "obj" else ".rmeta")), emit, libs, deps), ranges
     t0 = time.time()
+    n_invocations = 0
     with concurrent.futures.ThreadPoolExecutor(max_workers=min(16, os.cpu_count() or 4)) as ex:
-        results = list(ex.map(rustc_one, jobs))
-    for c, (rc, codes, first) in zip(cases, results):
-        c.rustc = "accept" if rc == 0 else "reject"
-        c.codes, c.first_error = codes, first
+        bjobs = [job_batch(n, key, cs) for n, (key, cs) in enumerate(batches)]
+        futs_b = [ex.submit(rustc_one, j) for j, _ in bjobs]
+        futs_s = [(c, ex.submit(rustc_one, job_single(c))) for c in single]
+        n_invocations += len(bjobs) + len(single)
+        redo = []
+        for (key, cs), (j, ranges), fu in zip(batches, bjobs, futs_b):
+            rc, errs = fu.result()
+            if rc == 0:
+                for c in cs: c.rustc = "accept"
+                continue
+            attributable = all(line is not None for _, line, _ in errs) and all(code in BORROWCK for code, _, _ in errs)
+            if key != "bck" or not attributable:
+                redo += cs; continue
+            for c in cs: c.codes = []
+            for code, line, rendered in errs:
+                for lo, hi, c in ranges:
+                    if lo <= line <= hi:
+                        c.codes.append(code)
+                        if not c.first_error: c.first_error = rendered
+            for c in cs:
+                if c.codes: c.rustc = "reject"
+                else: redo.append(c)        # no error in this function: confirm on its own that it compiles
+        futs_s += [(c, ex.submit(rustc_one, job_single(c))) for c in redo]
+        n_invocations += len(redo)
+        for c, fu in futs_s:
+            rc, errs = fu.result()
+            c.rustc = "accept" if rc == 0 else "reject"
+            c.codes = [e[0] for e in errs]; c.first_error = errs[0][2] if errs else ""
+    ctx.extra["rustc_invocations"] = {"batches": len(batches), "single": len(single), "recompiled_individually": len(redo), "total": n_invocations}
     return time.time() - t0
 
 def run_checker(ctx, cases):
@@ -692,8 +764,8 @@ def run_life(ctx, budget=None):
     cases = select(build_corpus(table, thorough), ctx.quick(), ctx.seed, budget or 330)
     d, libs = build_skeleton(ctx)
     if not d: return False
-    wall = compile_all(ctx, cases, d, libs)
     if not run_checker(ctx, cases): return False
+    wall = compile_all(ctx, cases, d, libs)
     known = load_known()
     stats = collections.Counter(); by_route = collections.Counter(); by_ctx = collections.Counter(); codes = collections.Counter()
     producers = set()
@@ -738,7 +810,7 @@ def run_life(ctx, budget=None):
                 rec["what"] = f"accepted program faults in the calculus' dynamic semantics: {c.model_detail}"
                 ctx.disagreements.append(rec); continue
             stats["accept-and-runs-ok"] += 1
-    ctx.corr["life"] = {"programs": len(cases), "rustc_wall_s": round(wall, 1), **dict(stats), "contexts": dict(by_ctx), "routes": dict(by_route),
+    ctx.corr["life"] = {"programs": len(cases), "rustc_wall_s": round(wall, 1), "rustc_invocations": ctx.extra.get("rustc_invocations"), **dict(stats), "contexts": dict(by_ctx), "routes": dict(by_route),
                         "rustc_error_codes": dict(codes), "distinct_producers": len(producers)}
     ctx.add_ob("correspondence:life(calculus checker vs rustc)", "correspondence", not [x for x in ctx.disagreements if x.get("engine") == "life"],
                json.dumps([{k: v for k, v in x.items() if k != "program"} for x in ctx.disagreements[:3]], indent=1)[:3000])
